@@ -477,7 +477,7 @@ class SolveExplicit(Ob):
     """result interior = old + dt*RHS; ghosts satisfy the input's BCs; the input variable is not written when it is
     clean (only re-synchronised when dirty); the result owns a boundary term (usable by solvePDE)"""
     name = 'solveExplicitPDE/old_plus_dt_rhs'
-    props = ('C12', 'C03')
+    props = ('C12', 'C03', 'C01')
 
     def parts(self, w):
         return ['interior'] + [(a, s) for a in range(w.nd) for s in (0, 1)]
